@@ -122,6 +122,20 @@ inline void parse_args(int argc, char** argv) {
     } else if (a.rfind("--", 0) == 0 && i + 1 < argc) g_args.opt[a.substr(2)] = argv[++i];
   }
 }
+// classes listed with --tolerate (the property's recorded findings; '*' at the end matches a prefix): a driver that can carry on
+// after such a finding asks is_tolerated() and counts it (probe tolerated_<class>) instead of ending the run
+inline bool is_tolerated(const char* cls) {
+  auto it = g_args.opt.find("tolerate");
+  if (it == g_args.opt.end()) return false;
+  const std::string& t = it->second; size_t i = 0;
+  while (i < t.size()) {
+    size_t j = t.find(',', i); if (j == std::string::npos) j = t.size();
+    std::string k = t.substr(i, j - i);
+    if (!k.empty() && (k == cls || (k.back() == '*' && !strncmp(cls, k.c_str(), k.size() - 1)))) return true;
+    i = j + 1;
+  }
+  return false;
+}
 inline long opt_long(const char* k, long dflt) { auto it = g_args.opt.find(k); return it == g_args.opt.end() ? dflt : atol(it->second.c_str()); }
 
 // ------------------------------------------------------------------ failure reporting
